@@ -87,6 +87,10 @@ CHECKS = {
          "Rounds of one writer plus concurrent readers, followed by readers that begin only after the writer's Commit returned; L1/L2 capacities from 1 entry to defaults, cache durations none..long with TTL, injected lost/missing L2 entries, clock advances across expiries, optional restart (cold caches). Every Get/scan/Count of an after-reader must equal the latest committed state.",
          "Trusted: simulator, KV model. Standalone caching only (one simulated process, in-memory L2 behind the proxy); the clustered Redis variant is not covered by this check (the Redis client is exercised by C28 against a stub). A task that spins inside sop is reported as a hang-class violation.",
          "7/C20"),
+ "C27": (EXPL, "deterministic simulation: seeded sequential histories over an active and a passive store folder with a simulator-chosen failing passive-side write, failover, reinstate; model comparison through the former passive side by a cold process",
+         "Seeded histories of creates, commits, rollbacks, removals and store drops over two store folders (blobs erasure coded 1+1 over two drives), fs.TriggerFailover + cold read of every store, in half of the histories one failing passive-side file operation at a PRNG-chosen position, then infs.ReinstateFailedDrives, further commits and a final failover. Every commit must succeed and the active side equal the model whatever the passive side does; a failed passive write must set FailedToReplicate; after each failover store list, contents and counts equal the model.",
+         "Trusted: simulator, map model. Histories run one task at a time (fs.globalReplicationDetailsLocker is held across I/O). A failing open or backup-file removal on the passive side is not required to turn replication off; it is judged by the failover comparison. Only EIO on one operation is injected (no torn passive writes).",
+         "7/C27"),
  "C28": (EXPL, "deterministic simulation: seeded interleavings of lock-service calls by several owners with TTL expiry under a simulated clock and full-cache pressure; lock-table model in lockstep",
          "2-4 owners issue Lock/DualLock/Unlock/IsLocked/IsLockedTTL/IsLockedByOthers and releases of keys they do not hold over shared keys, with TTLs 1 s..10 min, simulated sleeps across expiry, shard capacities default/1/2/4 with unrelated entries and colliding unrelated locks; a lock table with simulated time is kept in lockstep and cross-checked after every call (two holders, lock lost before expiry, foreign unlock, IsLocked true for a non-holder).",
          "Trusted: simulator, lock-table model. In-memory lock service only: each L2 call is one atomic scheduler step (sub-call interleavings of the sharded map are not explored); the Redis adapter's locker is NOT covered (no Redis server/stub in this build) - stated limitation.",
